@@ -13,6 +13,7 @@ class FsSeam(object):
         self.calls = 0
         self.log = []
         self.hook = None          # callable(kind, path, index) run before each I/O call under root
+        self.opened = set()       # paths opened since reset_request() (the hook may want "stat after open")
         self._saved = None
         self.in_hook = False
 
@@ -28,6 +29,10 @@ class FsSeam(object):
             return
         idx = self.calls
         self.calls += 1
+        if kind == 'stat' and os.fspath(path) in self.opened:
+            kind = 'stat_after_open'
+        elif kind == 'open':
+            self.opened.add(os.fspath(path))
         if len(self.log) < 400:
             self.log.append((kind, os.fspath(path)[len(self.prefix):]))
         if self.hook is not None:
